@@ -234,8 +234,10 @@ def one_run(rec, lib, rnd, d, dir_mode, st, inproc):
     if rnd.random() < 0.3 and not link_real:
         # an output of an earlier run is already there, longer than the new one will be: it is replaced as a whole
         stale = sorted(files)[0][:-4] + "_cm.css"
-        with open(os.path.join(d, stale), "w", encoding="utf-8") as f:
-            f.write("/* output of an earlier run */\n" + "".join(f".old-rule-{j} {{ color: #123456; margin: {j}px }}\n" for j in range(400 + 40 * len(files[sorted(files)[0]].text) // 1000)))
+        with open(os.path.join(d, stale), "wb") as f:
+            # every other one as an editor re-saved it in a legacy encoding (not valid UTF-8): it is an output location, never read
+            f.write(b"/* caf\xe9 \xff */\n" if rnd.random() < 0.5 else b"")
+            f.write(("/* output of an earlier run */\n" + "".join(f".old-rule-{j} {{ color: #123456; margin: {j}px }}\n" for j in range(400 + 40 * len(files[sorted(files)[0]].text) // 1000))).encode("utf-8"))
         rec.count("runs_over_a_stale_longer_output")
     before = clirun.snapshot(d)
     target_arg = (prefix or ".") if dir_mode else ("./" + os.path.join(prefix, single_name))
@@ -327,7 +329,7 @@ def one_run(rec, lib, rnd, d, dir_mode, st, inproc):
         op = os.path.join(d, rel[:-4] + "_cm.css")
         out_css = None
         if os.path.exists(op):
-            with open(op, encoding="utf-8", newline="") as f:
+            with open(op, encoding="utf-8", errors="replace", newline="") as f:
                 out_css = f.read()
         if stale == rel[:-4] + "_cm.css" and after.get(stale) == before.get(stale):
             out_css = None        # the earlier run's output was left as it was: nothing was written for this sheet
